@@ -157,6 +157,7 @@ package server
 //@   ensures ret0 ==> tcpSpawns == old(tcpSpawns) + 1 && isnil(ret1)
 //@   ensures !ret0 ==> tcpSpawns == old(tcpSpawns)
 //@   ensures err != nil || !h.authenticated || ft != 1025 ==> rpos == old(rpos)
+//@   ensures ret0 ==> spos(stream) == old(spos(stream)) + vw(sel(sdata(stream), old(spos(stream))))
 //@   modifies streamReads, tcpSpawns, rpos
 
 //@ func (*h3sHandler).handleTCPRequest
